@@ -121,3 +121,88 @@ def check(case, stats):
         stats.maximum("max_atoms", len(ref["atoms"]))
         if ref["attrs"] or (len(syms) >= 2 and syms != zorder):
             stats.mark_nontrivial(case_digest(s), {"string": s[:160], "kind": case["kind"], "result": res})
+
+
+# ---- complete single-edit neighbourhoods -------------------------------------------------
+
+
+def _neigh_worker(args):
+    base, lo, hi = args
+    from ..lib import Violation as V
+
+    toks = sn.tokens_of(base)
+    alphabet = sn.ALPHABET_TOKENS + sn.JUNK_TOKENS[:24] + ["Cl", "Cn", "Hs", "Na", "D"]
+    out = {"n": 0, "accept": 0, "reject": 0, "failures": []}
+
+    def variants():
+        for i in range(len(toks) + 1):
+            for t in alphabet:
+                yield toks[:i] + [t] + toks[i:]
+        for i in range(len(toks)):
+            yield toks[:i] + toks[i + 1 :]
+            for t in alphabet:
+                if t != toks[i]:
+                    yield toks[:i] + [t] + toks[i + 1 :]
+        for i in range(len(toks) - 1):
+            if toks[i] != toks[i + 1]:
+                yield toks[:i] + [toks[i + 1], toks[i]] + toks[i + 2 :]
+
+    for k, v in enumerate(variants()):
+        if not (lo <= k < hi):
+            continue
+        s2 = "".join(v)
+        out["n"] += 1
+        try:
+            res, _ = compare(s2)
+            out["accept" if res == "accept" else "reject"] += 1
+        except V as e:
+            if len(out["failures"]) < 3:
+                out["failures"].append({"sub": e.sub, "message": e.msg, "details": {}, "case": {"s": s2, "kind": "neighbourhood"},
+                                        "bucket": [e.sub, e.details.get("exception"), e.details.get("frame")]})
+    return out
+
+
+def extra(ctx):
+    """Every single-token insertion / replacement (over the token alphabet + junk), deletion and
+    transposition of a few drawn valid sentences: the complete edit-distance-1 neighbourhood."""
+    import multiprocessing as mp
+    import random
+
+    from hypothesis import HealthCheck, find, settings  # noqa: F401
+    from ..runner import Stats
+
+    tier, seed = ctx["tier"], ctx["seed"]
+    n_sent = 8 if tier == "quick" else 64
+    rnd = random.Random(seed * 7919 + 13)
+    # sentences from the constructive generator, drawn with a seeded Hypothesis run
+    import hypothesis
+    from hypothesis import given
+
+    bases = []
+
+    @hypothesis.seed(seed)
+    @settings(max_examples=n_sent * 3, database=None, deadline=None, suppress_health_check=list(HealthCheck), phases=[hypothesis.Phase.generate])
+    @given(sn.structures(max_atoms=30, max_tuples=6, allow_empty=False))
+    def collect(struct):
+        s0 = sn.spell(struct)
+        if 8 <= len(sn.tokens_of(s0)) <= 40 and len(bases) < n_sent and s0 not in bases:
+            bases.append(s0)
+
+    collect()
+    jobs = []
+    for b in bases:
+        nt = len(sn.tokens_of(b))
+        total = (nt + 1) * 53 + nt * 54 + nt
+        step = 1500
+        jobs += [(b, lo, lo + step) for lo in range(0, total, step)]
+    stats = Stats()
+    failures = []
+    with mp.get_context("fork").Pool(16) as pool:
+        for r in pool.imap_unordered(_neigh_worker, jobs):
+            stats.evaluated(r["n"])
+            stats.label("neighbourhood->accept", r["accept"])
+            stats.label("neighbourhood->reject", r["reject"])
+            failures.extend(r["failures"])
+    for b in bases[:3]:
+        stats.mark_nontrivial("neigh:" + b, {"complete_single_edit_neighbourhood_of": b})
+    return {"failures": failures, "stats": stats.dump(), "info": {"neighbourhood_sentences": len(bases), "neighbourhood_strings": stats.evaluations}}
